@@ -78,11 +78,15 @@ impl<'a> Iterator for ChannelSpecIterator<'a> {
                 self.chars.next();
             }
             lexical_core::parse_partial(self.chars.as_slice())
-                .map(|(n, len)| {
-                    self.chars.nth(len - 1).unwrap();
-                    n
-                })
                 .map_err(|_| ErrorCode::ExpressionError)
+                .and_then(|(n, len)| {
+                    // Nothing parsed, e.g. an empty dimension `1!!2`
+                    if len == 0 {
+                        return Err(ErrorCode::ExpressionError);
+                    }
+                    self.chars.nth(len - 1).unwrap();
+                    Ok(n)
+                })
         })
     }
 }
